@@ -100,8 +100,10 @@ class FitProperties(dict):
                     if ("optimal_fit_edelta" in self and
                         self["optimal_fit_edelta"] and
                         "range_x" in self and
-                            self["range_x"][1] == value[1]):
-                        # Ignore changes in range[0]
+                            np.max(self["range_x"]) == np.max(value)):
+                        # Ignore changes in the lower boundary (the
+                        # upper boundary is the larger of the two values,
+                        # see `IndentationFitter.fit`)
                         return
                 # Trigger `self.reset`
                 self.reset()
@@ -542,7 +544,8 @@ class IndentationFitter(object):
             if (key == "range_x" and
                     self.fp["optimal_fit_edelta"]):
                 # range only partly if "optimal_fit_edelta" is True
-                hashlist.append(self.fp["range_x"][1])
+                # (the upper boundary)
+                hashlist.append(float(np.max(self.fp["range_x"])))
             elif (key == "optimal_fit_num_samples" and
                   not self.fp["optimal_fit_edelta"]):
                 # ignore number of samples if optimal fit is not used
